@@ -75,7 +75,12 @@ Section Sql.
   Definition sql_reopen (h : sqlh) : sqlh :=
     mkSql (q_rows h) (q_nsess h) (max_id (q_rows h)) 0 (q_cfg_max h) (q_igs h) (q_igd h) (q_cfg_max h).
 
-  Inductive sop := SAdd (l : str) | SGet (i : nat) (d : sdir) | SLen | SSetMax (n : nat) | SReopen.
+  (* ... with another Config: the duplicates policy is the new one (the unique index is dropped / created on open) *)
+  Definition sql_reopen_cfg (h : sqlh) (igs igd : bool) : sqlh :=
+    mkSql (q_rows h) (q_nsess h) (max_id (q_rows h)) 0 (q_cfg_max h) igs igd (q_cfg_max h).
+
+  Inductive sop := SAdd (l : str) | SGet (i : nat) (d : sdir) | SLen | SSetMax (n : nat) | SReopen
+                 | SReopenCfg (igs igd : bool).
   Inductive sout := SoBool (b : bool) | SoGet (r : option (nat * str)) | SoNat (n : nat) | SoUnit.
 
   Definition sql_step (h : sqlh) (o : sop) : sqlh * sout :=
@@ -85,6 +90,7 @@ Section Sql.
     | SLen => (h, SoNat (q_cache h))
     | SSetMax n => (sql_set_max h n, SoUnit)
     | SReopen => (sql_reopen h, SoUnit)
+    | SReopenCfg igs igd => (sql_reopen_cfg h igs igd, SoUnit)
     end.
   Fixpoint sql_run (h : sqlh) (ops : list sop) : sqlh * list sout :=
     match ops with
